@@ -22,6 +22,18 @@ let junk0 a = zeros (nrows a)
 let cf_char = function Coarsen.CU -> "U" | Coarsen.CC -> "C" | Coarsen.CF -> "F"
 let junk_flags (a : Crs.crs) fill = List.map (fun r -> List.map (fun _ -> fill <> 0) r) a.Crs.rows
 
+let two_levels pol a =
+  let err = function
+    | Coarsen.StepEmpty -> raise (Model_exc "empty_level")
+    | Coarsen.StepPrecond -> raise (Model_exc "runtime_error")
+    | _ -> "MODEL-OOB" in
+  match Coarsen.coarsen_step sc 1 pol a (junk0 a) [] with
+  | Coarsen.StepOk (_, _, ac, pol') ->
+    (match Coarsen.coarsen_step sc 1 pol' ac (junk0 ac) [] with
+     | Coarsen.StepOk (p2, r2, _, _) -> show_crs ac ^ " " ^ show_crs p2 ^ " " ^ show_crs r2
+     | x -> show_crs ac ^ " " ^ err x)
+  | x -> err x
+
 let () =
   reg "plain_aggregates" (fun t -> let a = t_crs t in let _ = t_q t in let eps2 = t_q t in
     show_aggr (Aggregates.plain_aggregates sc eps2 a (junk0 a)));
@@ -42,21 +54,14 @@ let () =
   reg "sa_gersh" (fun t -> let a = t_crs t in let _ = t_q t in let eps2 = t_q t in let bs = t_i t in
     let relax = t_q t in let c43 = t_q t in
     show_tr (Coarsen.sa_transfer_gersh sc eps2 relax c43 bs a (junk0 a)));
+  (* two levels through the uniform interface Coarsen.coarsen_step *)
   reg "sa2" (fun t -> let a = t_crs t in let _ = t_q t in let eps2 = t_q t in let eps2n = t_q t in
     let relax = t_q t in let c23 = t_q t in
-    match Coarsen.sa_transfer sc eps2 relax c23 1 a (junk0 a) with
-    | Coarsen.TrOk (p, r) ->
-      let ac = Coarsen.sa_coarse sc 1 a p r in
-      show_crs ac ^ " " ^ show_tr (Coarsen.sa_transfer sc eps2n relax c23 1 ac (junk0 ac))
-    | x -> show_tr x);
+    two_levels (Coarsen.PolSA ([eps2; eps2n], 1, relax, c23)) a);
   reg "emin" (fun t -> let a = t_crs t in let _ = t_q t in let eps2 = t_q t in let bs = t_i t in
     show_tr (Coarsen.emin_transfer sc 1 eps2 bs a (junk0 a)));
   reg "emin2" (fun t -> let a = t_crs t in let _ = t_q t in let eps2 = t_q t in let eps2n = t_q t in
-    (match Coarsen.emin_transfer sc 1 eps2 1 a (junk0 a) with
-     | Coarsen.TrOk (p, r) ->
-       let ac = Coarsen.emin_coarse sc 1 a p r in
-       show_crs ac ^ " " ^ show_tr (Coarsen.emin_transfer sc 1 eps2n 1 ac (junk0 ac))
-     | x -> show_tr x));
+    two_levels (Coarsen.PolEmin ([eps2; eps2n], 1)) a);
   reg "rs" (fun t -> let a = t_crs t in let eps = t_q t in let dt = t_i t in let et = t_q t in let fill = t_i t in
     show_tr (Coarsen.rs_transfer sc eps et (dt <> 0) a (junk_flags a fill)));
   reg "rs_cf" (fun t -> let a = t_crs t in let eps = t_q t in let fill = t_i t in
